@@ -289,14 +289,29 @@ void XMLWriter::transition(const edge_t& edge)
     endElement();  // end of the "transition" element
 }
 
+/* the type of a select binder the way it is declared: a named type or int[lower,upper] */
+static string selectType(type_t type)
+{
+    while (type.get_kind() == CONSTANT)  // binders are constant by construction
+        type = type[0];
+    if (type.get_kind() == LABEL)
+        return type.get_label(0);
+    if (type.get_kind() == RANGE && type[0].get_kind() == Constants::INT) {
+        auto [lower, upper] = type.get_range();
+        return "int[" + lower.str() + "," + upper.str() + "]";
+    }
+    return type.declaration();
+}
+
 void XMLWriter::labels(int x, int y, const edge_t& edge)
 {
     string str;
     if (edge.select.get_size() > 0) {
-        str = edge.select[0].get_name() + " : ";
-        if (edge.select[0].get_type().size() > 0 && edge.select[0].get_type()[0].size() > 0) {
-            str += edge.select[0].get_type()[0].get_label(0);
-        }  // else ? should not happen
+        for (uint32_t i = 0; i < edge.select.get_size(); ++i) {
+            if (i > 0)
+                str += ", ";
+            str += edge.select[i].get_name() + " : " + selectType(edge.select[i].get_type());
+        }
         label("select", str, x, y - 32);
     }
     if (!edge.guard.empty()) {
